@@ -12,7 +12,7 @@ class C41(core.Prop):
     id = "C41"
     drivers = ["s4u_interp"]
     ready = True
-    sizes = {"quick": 24, "thorough": 1500}
+    sizes = {"quick": 24, "thorough": 300}
     max_workers = 6
     technique = ("property-based testing (Hypothesis): every counter-example path reported by simgrid-mc on generated programs is "
                  "replayed out of the checker (round trip) and its failing state compared with the reference explorer")
